@@ -90,6 +90,17 @@ fn check_assertion(
 }
 
 pub fn monitor(rep: &mut Report, history: u64, st: &Step) {
+    // "the user handle returned is the one stored with it": what is stored with a credential is not
+    // altered by an assertion (only its counter may move), or the next assertion would return another
+    if matches!(st.op, Op::Authenticate(_) | Op::Get(_)) {
+        for b in st.before.iter() {
+            if let Some(a) = st.after.iter().find(|a| a.id == b.id) {
+                if a.user_handle != b.user_handle || a.rp_id != b.rp_id || a.key_cbor != b.key_cbor {
+                    rep.violate("an assertion altered what is stored with a credential (user handle, RP ID or key)", format!("credential {}: user handle {:?} -> {:?}", hex_short(&b.id), b.user_handle.as_ref().map(|h| hex_short(h)), a.user_handle.as_ref().map(|h| hex_short(h))), case_json(history, st));
+                }
+            }
+        }
+    }
     match (st.op, st.outcome) {
         (Op::Authenticate(a), Outcome::Auth(res)) => {
             rep.eval();
